@@ -192,11 +192,34 @@ fn compile_one(src: String, argv: Vec<String>, cfg: Value, deadline: u64) -> Val
             Ok(a) => a,
             Err(e) => return json!({"status": "badargs", "msg": e.to_string()}),
         };
+        // hook H3: the places where the generator relied on its belief about the flags (only when the case asks for them)
+        #[cfg(cc6502_verif_flags)]
+        let want_uses = CFG.with(|c| c.borrow()["flaguses"].as_bool().unwrap_or(false));
+        #[cfg(cc6502_verif_flags)]
+        if want_uses {
+            cc6502::generate::verif_flags::LOG.with(|l| *l.borrow_mut() = Some(Vec::new()));
+        }
         let mut out = Vec::new();
-        match compile(src.as_bytes(), &mut out, &args, builder) {
+        let r = compile(src.as_bytes(), &mut out, &args, builder);
+        #[cfg(cc6502_verif_flags)]
+        let uses: Option<Vec<Value>> = if want_uses {
+            Some(cc6502::generate::verif_flags::LOG.with(|l| l.borrow_mut().take().unwrap_or_default())
+                .into_iter()
+                .map(|u| json!({"fn": u.function, "belief": u.belief,
+                    "code": u.code.iter().map(|l| json!({"k": l.0, "mn": l.1, "op": l.2})).collect::<Vec<Value>>()}))
+                .collect())
+        } else {
+            None
+        };
+        #[cfg(not(cc6502_verif_flags))]
+        let uses: Option<Vec<Value>> = None;
+        match r {
             Ok(()) => {
                 let mut o: Value = serde_json::from_slice(&out).unwrap_or(json!({}));
                 o["status"] = json!("ok");
+                if let Some(u) = uses {
+                    o["flaguses"] = json!(u);
+                }
                 o
             }
             Err(e) => json!({"status": "err", "err": err_json(&e), "display": e.to_string()}),
